@@ -29,7 +29,7 @@ func (g *G) Pick(xs ...interface{}) interface{} { return xs[g.R.Intn(len(xs))] }
 
 func (g *G) PickS(xs ...string) string { return xs[g.R.Intn(len(xs))] }
 
-var constStrings = []string{"a", "b", "c", "tacos", "chips", "x!", "", "é"}
+var constStrings = []string{"a", "b", "c", "tacos", "chips", "x!", "", "é", "1", "true", "2.5", "<nil>"}
 var numbers = []float64{0, 1, 2, 3, 10, -1, 0.5, 2.5}
 var keys = []string{"a", "b", "c", "d", "likes", "n", "to"}
 
